@@ -48,6 +48,7 @@ class Stats:
 
 
 STATS = Stats()
+FRAC_INTS = [False]      # opt-in: floor/ceil/trunc of a quotient of integer terms through a fresh integer (solver-friendly NIA)
 INT64_WRAP = [False]     # opt-in machine model for float -> int64 casts (set by harnesses that care)
 
 
@@ -244,10 +245,11 @@ class Sym:
     __array_priority__ = 2000
     __array_ufunc__ = None
 
-    def __init__(self, t, is_int=False, radicand=None):
+    def __init__(self, t, is_int=False, radicand=None, frac=None):
         self.t = t
         self.is_int = is_int
         self.radicand = radicand  # if this term is sqrt(radicand)
+        self.frac = frac          # (numerator term, denominator term) when this is a quotient of integer-valued terms
 
     # -- helpers
     def _bin(self, o, f, int_ok=True):
@@ -255,7 +257,11 @@ class Sym:
             return NotImplemented
         if o is None or isinstance(o, (str, bytes, dict, list, tuple)):
             return NotImplemented
-        return Sym(f(self.t, lift(o)), int_ok and self.is_int and is_intlike(o))
+        try:
+            lo = lift(o)
+        except TypeError:
+            return NotImplemented          # let the other operand's reflected method handle it
+        return Sym(f(self.t, lo), int_ok and self.is_int and is_intlike(o))
 
     def __add__(self, o):
         if _isarr(o):
@@ -304,7 +310,13 @@ class Sym:
             return _ew(o, lambda e: self / e)
         if isinstance(o, (SymC, complex, np.complexfloating)):
             return SymC.of(self) / o
-        return self._bin(o, lambda a, b: a / b, int_ok=False)
+        r = self._bin(o, lambda a, b: a / b, int_ok=False)
+        if FRAC_INTS[0] and isinstance(r, Sym) and is_intlike(o):
+            if self.is_int:
+                r.frac = (self.t, lift(o))
+            elif self.frac is not None:
+                r.frac = (self.frac[0], self.frac[1] * lift(o))
+        return r
 
     def __rtruediv__(self, o):
         if _isarr(o):
@@ -317,6 +329,8 @@ class Sym:
         if isinstance(o, np.ndarray) and o.ndim > 0:
             return _ew(o, lambda e: self // e)
         q = self.t / lift(o)
+        if FRAC_INTS[0] and self.is_int and is_intlike(o):
+            return Sym(_frac_floor(self.t, lift(o)), True)
         return floor(Sym(q))
 
     def __rfloordiv__(self, o):
@@ -327,7 +341,10 @@ class Sym:
         if isinstance(o, np.ndarray) and o.ndim > 0:
             return _ew(o, lambda e: self % e)
         # Python semantics: a - floor(a/b)*b
-        fl = floor(Sym(self.t / lift(o)))
+        if FRAC_INTS[0] and self.is_int and is_intlike(o):
+            fl = Sym(_frac_floor(self.t, lift(o)), True)
+        else:
+            fl = floor(Sym(self.t / lift(o)))
         return Sym(self.t - fl.t * lift(o), self.is_int and is_intlike(o))
 
     def __rmod__(self, o):
@@ -554,11 +571,21 @@ def to_int_term(x):
     return z3.ToInt(lift(x))
 
 
+def _frac_floor(n, d):
+    """floor(n/d) for integer-valued n, d != 0 through a fresh integer q (definition as side constraint)"""
+    _fresh[0] += 1
+    qv = z3.ToReal(z3.Int(f"q!{_fresh[0]}"))
+    side(z3.Or(z3.And(d > 0, qv * d <= n, n < (qv + 1) * d), z3.And(d < 0, qv * d >= n, n > (qv + 1) * d)))
+    return qv
+
+
 def floor(x):
     if not isinstance(x, Sym):
         x = Sym(lift(x))
     if x.is_int:
         return x
+    if FRAC_INTS[0] and x.frac is not None:
+        return Sym(_frac_floor(*x.frac), True)
     return Sym(z3.ToReal(z3.ToInt(x.t)), True)
 
 
@@ -567,6 +594,8 @@ def ceil(x):
         x = Sym(lift(x))
     if x.is_int:
         return x
+    if FRAC_INTS[0] and x.frac is not None:
+        return Sym(-_frac_floor(-x.frac[0], x.frac[1]), True)
     return Sym(-z3.ToReal(z3.ToInt(-x.t)), True)
 
 
@@ -575,6 +604,9 @@ def trunc(x):
         x = Sym(lift(x))
     if x.is_int:
         return x
+    if FRAC_INTS[0] and x.frac is not None:
+        n, d = x.frac
+        return Sym(z3.If(x.t >= 0, _frac_floor(n, d), -_frac_floor(-n, d)), True)
     return Sym(z3.If(x.t >= 0, z3.ToReal(z3.ToInt(x.t)), -z3.ToReal(z3.ToInt(-x.t))), True)
 
 
